@@ -138,6 +138,7 @@ func DefaultFunding(r *rand.Rand, double bool) (map[string]*big.Int, *big.Int) {
 		f[Acct(i)] = v
 	}
 	f[LongAcct()] = big.NewInt(77_000_000)
+	f[VeryLongAcct()] = big.NewInt(55_000_000)
 	allow := new(big.Int).Add(Two255, Two128)
 	if double {
 		allow = new(big.Int).Lsh(Max256, 8)
@@ -377,6 +378,8 @@ func (g *Gen) Inbound(perturb bool) *ct.MsgReceiveMessage {
 		case 9:
 			m.Caller = make([]byte, 32)
 			m.Caller[r.Intn(12)] = byte(1 + r.Intn(255))
+		case 10:
+			m.Recipient = NearModuleRecipient(byte(1 + r.Intn(200)))
 		case 3:
 			if len(m.Body) == 132 {
 				m.Body[3] = 1 // burn body version
